@@ -214,7 +214,9 @@ class World (object):
     self.quits = 0
     self.sched_quit = 0
     self.goup_variant = None
-    self.deferrals = []           # outstanding "release later" deferral callables
+    self.deferrals = []           # outstanding deferrals: (index, callable, holder); holder "h" = a GoingUp handler
+    self.goingup_event = None     # the GoingUpEvent, kept by a listener (public way to take a deferral later)
+    self.took = set()             # "launch" / "late": deferrals were taken outside GoingUp handlers
     self.ndeferral = 0
     self.next_wid = 0
     self.invocations = 0
@@ -276,7 +278,8 @@ class World (object):
     """Operation kind (for clauses about a core call that misbehaved as a whole)."""
     op = self.cur_op or ("?",)
     kind = {"reg": "register", "cwr": "call_when_ready", "ltd": "listen_to_dependencies",
-            "goUp": "goUp", "release": "release", "quit": "quit", "thread": "quit-thread"}.get(op[0], op[0])
+            "goUp": "goUp", "release": "release", "take": "take-deferral", "quit": "quit",
+            "thread": "quit-thread"}.get(op[0], op[0])
     if op[0] == "cwr" and op[1] == 0: kind += ":empty-" + op[2]
     return kind
 
@@ -302,11 +305,13 @@ class World (object):
     elif "I" in v: f = "release-inside-handler"
     elif "L" in v: f = "release-after-goUp"
     else: f = "no-deferral"
+    if self.took: f = "component-takes"       # deferrals also taken outside GoingUp handlers (launch / later stage)
     return f
 
   # ---- listeners on core ---------------------------------------------------
   def _life (self, name):
     def h (event):
+      if name == "GoingUp": self.goingup_event = event
       self.oplog.append(("life", name))
       self.note("  event %s", name)
       err = self.model.observe(name)
@@ -511,11 +516,22 @@ class World (object):
         d()
       else:
         self.note("  GoingUp handler takes a deferral (released later)")
-        self.deferrals.append((idx, d))
+        self.deferrals.append((idx, d, "h"))
     return h
 
+  def do_take (self, holder):
+    """Component `holder` takes a deferral outside a GoingUp handler: while launching (before goUp) or as the
+    next stage of its start-up after goUp returned (through the GoingUpEvent it kept)."""
+    self.took.add("launch" if self.model.starting else "late")
+    self.calls += 1
+    if self.goingup_event is not None: d = self.goingup_event.get_deferral()
+    else: d = self.core._get_go_up_deferral()
+    idx = self.ndeferral; self.ndeferral += 1
+    self.model.take(idx)
+    self.deferrals.append((idx, d, holder))
+
   def do_release (self, j):
-    idx, d = self.deferrals.pop(j)
+    idx, d, holder = self.deferrals.pop(j)
     self.model.release(idx)
     self.calls += 1
     d()
@@ -557,7 +573,12 @@ class World (object):
       for kind in prm["sinks"]:
         if kind not in self.sinks: ops.append(("ltd", kind))
     if self.model.starting: ops += st[2]
-    for j in range(len(self.deferrals)): ops.append(("release", j))
+    if "Up" not in self.model.log:             # components defer start-up only while the system is not up yet
+      for c in range(prm.get("takers", 0)):
+        if sum(1 for x in self.deferrals if x[2] == c) < prm["hold_max"]: ops.append(("take", c))
+    for j in range(len(self.deferrals)):
+      if self.model.starting and not prm.get("pre_release", True): break
+      ops.append(("release", j))
     if self.quits < 2 and not prm.get("noquit"): ops.append(("quit",))
     if self.threads: ops.append(("thread",))
     return ops
@@ -569,6 +590,7 @@ class World (object):
     if op[0] == "reg": return "register(%s)" % op[1]
     if op[0] == "goUp": return "goUp() with GoingUp handlers %r" % (op[1],)
     if op[0] == "release": return "release outstanding deferral #%d" % op[1]
+    if op[0] == "take": return "component %d takes a deferral (%s)" % (op[1], "outside a GoingUp handler")
     if op[0] == "thread": return "thread spawned by quit() runs"
     return "quit()"
 
@@ -584,6 +606,7 @@ class World (object):
       elif k == "ltd": self.do_ltd(op[1])
       elif k == "goUp": self.do_goup(op[1])
       elif k == "release": self.do_release(op[1])
+      elif k == "take": self.do_take(op[1])
       elif k == "quit": self.do_quit()
       elif k == "thread": self.do_thread()
     except Exception as e:
@@ -633,7 +656,9 @@ class World (object):
       else: sinks.append(1)
     return (tuple(sorted(core.components)), tuple(ws),
             core.running, core.starting_up, len(core._go_up_deferrals), core.scheduler._hasQuit,
-            len(self.deferrals), len(self.threads), self.quits, len(self.later),
+            tuple(x[2] for x in self.deferrals),
+            tuple(sorted(repr(t) if isinstance(t, (int, str, tuple, float)) else "o" for t in core._go_up_deferrals)),
+            len(self.threads), self.quits, len(self.later),
             tuple(sinks), tuple(sorted(self.shared["set"])), tuple(self.shared["list"]), self.model.canon())
 
 
@@ -664,11 +689,15 @@ def params (cfg):
   # argument and plain waiters on single components; life-cycle reduced to a plain goUp (no interaction with the argument)
   shared = dict(nc=3, maxp=cfg.pick(3, 4), depth=cfg.pick(5, 6), dev=1, sinks=[6, 7, 8, 9, 3], goup=[""], noquit=True,
                 cwr_masks=cfg.pick([2, 4], [1, 2, 4]), forms=(("str",), ("list",)))
-  if cfg.quick: return [q, shared]
+  # start-up deferrals: every take / release / goUp history; components take deferrals while launching, in GoingUp
+  # handlers and as later stages after goUp returned (non-monotone: new ones while others are outstanding)
+  defer = dict(nc=0, maxp=0, depth=cfg.pick(7, 8), dev=0, sinks=[], goup=GOUP_VARIANTS, noquit=True, cwr_masks=[],
+               takers=2, hold_max=3, forms=(("str",), ("list",)))
+  if cfg.quick: return [q, shared, defer]
   deep = dict(q, maxp=4, depth=6)
   wide = dict(nc=4, maxp=5, depth=4, dev=3, sinks=[0, 1, 2, 3, 4, 5], goup=GOUP_VARIANTS,
               forms=(("str", "list"), ("list", "tuple", "set")))
-  return [deep, wide, shared]
+  return [deep, wide, shared, defer]
 
 
 def public (prm):
@@ -712,7 +741,9 @@ RULE = ("breadth-first over canonical states of a real POXCore: every history of
         "be left as it was and each sink's dependency set is the argument's value at its own call plus its own "
         "handler names); "
         "goUp with GoingUp handlers %s (I: deferral released inside the handler, L: released by a later operation, "
-        "every order); release; quit (<=2); run of a thread spawned by quit()}, at most MAXP pending waiters; every "
+        "every order); a component taking a deferral outside a handler (while launching, or as a later start-up "
+        "stage after goUp returned while others may be outstanding; only while the system is not up); release of any "
+        "held deferral; quit (<=2); run of a thread spawned by quit()}, at most MAXP pending waiters; every "
         "waiter callback invoked picks one of {return, raise, register an unregistered component, declare a further "
         "waiter on one component}, sink completion callbacks {return, raise}, <=DEV non-default picks per history. "
         "One representative history per distinct (state, fewest deviations) is extended; state = components, "
@@ -835,7 +866,8 @@ def run (cfg):
   rep.rule = RULE % (GOUP_VARIANTS, "; ".join(
     "components=%s DEPTH=%d MAXP=%d DEV=%d sinks=%s forms=%s goUp=%s%s"
     % (NAMES[:p["nc"]], p["depth"], p["maxp"], p["dev"], [P.SINKS[k][0] for k in p["sinks"]], p["forms"], p["goup"],
-       (" no-quit" if p.get("noquit") else "") + (" waiters-only-on-masks=%s" % p["cwr_masks"] if p.get("cwr_masks") else ""))
+       (" no-quit" if p.get("noquit") else "") + (" waiters-only-on-masks=%s" % p["cwr_masks"] if p.get("cwr_masks") else "")
+       + (" deferral-takers=%d(<=%d held each)" % (p["takers"], p["hold_max"]) if p.get("takers") else ""))
     for p in prms))
   rep.bound = dict(configurations=[dict(depth=p["depth"], deviations=p["dev"], components=p["nc"],
                                         pending_waiters=p["maxp"], sinks=len(p["sinks"])) for p in prms])
